@@ -1,4 +1,5 @@
 import HmfVerif.Model.Quad
+import HmfVerif.Model.Lists
 import HmfVerif.Model.ExprIO
 /-!
 `QUAD sigma <n> <order> <dlnk> <nr> <k…> <P…> <r…>` with the window term chosen by the dispatcher;
@@ -35,6 +36,11 @@ def listCase (kind : String) : P String := do
   | "cumtrapz" => do
       let n ← nat; let dx ← fbits; let ys ← rep n fbits
       pure (" ".intercalate ((cumtrapzRev dx ys).map showF))
+  | "gtm" => do
+      -- QUAD gtm <massDensity 0|1> <extend 0|1> <nUpper> <n> <m…> <dndm…>
+      let md ← nat; let ext ← nat; let nu ← nat; let n ← nat
+      let ms ← rep n fbits; let ds ← rep n fbits
+      pure (" ".intercalate ((Hmf.Lists.hmfIntegralGtm (md == 1) (ext == 1) ms ds nu).map showF))
   | k => throw s!"bad quad kind {k}"
 
 def handle (lookup : String → Option E) (line : String) : String :=
